@@ -15,6 +15,10 @@ Stages
       d_qid_order          : total order on the whole qid pool (trichotomy, transitivity, sorted() invariance).
       f_pickle_cross_process: every hashable hand-built value is pickled AFTER its hash was computed and read in a fresh
                              interpreter with another PYTHONHASHSEED: equal to, and same hash as, a freshly built equal value.
+      g_value_histories    : moments / circuits / frozen circuits / circuit operations grown by with_operation(s), +,
+                             Circuit.append / insert / batch_insert_into AFTER a memoised view (hash, ==, !=, str, approx_eq)
+                             was taken, new operation sorting before / after / around the existing ones, three qubit kinds:
+                             equal to (and same hash as) the directly built value, plus the full instance oracle.
       e_class_coverage     : union of generated classes vs registered classes (counter + note).
 The instance oracle (function `check_instance`) is shared by all (b) stages; wrappers [x, x], {"k": x} and
 to_json_gzip/read_json_gzip are applied to every instance.
@@ -67,7 +71,12 @@ RULE = ("(a) every stored .json/.repr and .json_inward/.repr_inward pair discove
         "parameter names, measurement keys, sweep points, records), eval(repr(x))==x, pickle/copy/deepcopy equal with equal "
         "hash after the source hash was computed; (c) equal=>equal hash, ==/!= coherence and symmetry over all pairs of each hand-built group (first 4000 values of a group) and of each stored element's pool (original + its first 150 distinct single-mutation values, 30 for big documents); (d) all pairs and "
         "triples of the qid pool; (f) every hashable hand-built value pickled after hashing and read in a fresh interpreter "
-        "with a different PYTHONHASHSEED.  non-trivial = the instance serialises to a document containing at least one cirq_type "
+        "with a different PYTHONHASHSEED; (g) value histories: every (qubit kind of 3, base moment of 5, added operations of 7 "
+        "placements before/after/around the existing ones, memoised view of 8 taken before the edit, edit method of 9: "
+        "Moment.with_operation/with_operations/+/chained, Circuit.append/insert INLINE/batch_insert_into, then freeze / "
+        "CircuitOperation) compared with the directly built value (==, !=, hash, approx_eq) and given the instance oracle; the "
+        "duration group holds every total of a fixed list written in each unit x int/float/numpy scalar form, by arithmetic, by "
+        "parameter resolution and as datetime.timedelta, plus Timestamps and wait gates/ops/moments/circuits built on them.  non-trivial = the instance serialises to a document containing at least one cirq_type "
         "(gen 2: and the mutation changed the constructed value); distinct = distinct case descriptor")
 TECHNIQUE = ("bounded-exhaustive enumeration of the stored document history, of hand-built value alphabets and of the "
              "single/pair field-mutation closure of every stored document against the round-trip / equality / hash / order contracts")
@@ -973,9 +982,12 @@ def _pair_check(a, b, la, lb, lenient):
     return None, bool(ab)
 
 
+_EQ_POOL = None
+
+
 def run_eq_hash_gen1(case):
     group, i = case
-    items = _CUR_POOL[group]
+    items = _EQ_POOL[group]
     la, a = items[i]
     n_eq = 0
     n = 0
@@ -1153,7 +1165,7 @@ pickle.dump(bad, open(sys.argv[2], 'wb'))
 
 
 XP_BUNDLES = [["gates"], ["tableaux", "qids", "values"], ["ops", "paulis", "circuits", "sweeps"],
-              ["results", "gatesets", "noise_devices", "google_workflow"]]
+              ["results", "gatesets", "noise_devices", "google_workflow", "durations"]]
 
 
 def run_pickle_cross_process(case):
@@ -1202,6 +1214,161 @@ def run_pickle_cross_process(case):
                    f"\n  ({len(res)} of {len(payload)} instances of this part fail)",
                    kind="pickle_cross_process", group=group, cls=type(x).__name__)
     return good(nontrivial=True, cross_process_pickles=len(payload))
+
+
+# ---------------------------------------------------------------------------------------------
+# (g) value histories: a moment / circuit grown by with_operation(s) / + / Circuit.append / insert AFTER one of its
+#     memoised views (sorted operations, hash, diagram) was taken must equal the same value built directly
+
+
+def _hist_qubits(kind):
+    if kind == 0:
+        return cirq.LineQubit.range(4)
+    if kind == 1:
+        return [cirq.GridQubit(0, 0), cirq.GridQubit(0, 1), cirq.GridQubit(1, 0), cirq.GridQubit(1, 1)]
+    return [cirq.NamedQubit("q2"), cirq.NamedQubit("q10"), cirq.NamedQubit("q11"), cirq.NamedQubit("r")]  # natural sort
+
+
+HIST_BASES = ["mid", "outer", "empty", "two_qubit", "tagged"]
+HIST_ADDS = ["before", "after", "between_pair", "pair_around", "pair_reversed", "measure_before", "two_before_after"]
+HIST_TRIGGERS = ["none", "hash", "eq", "ne", "str", "approx_eq", "sorted_private", "eq_unequal"]
+HIST_METHODS = ["with_operation", "with_operations", "add", "with_operation_chain", "circuit_append", "circuit_insert_inline",
+                "circuit_append_then_freeze", "circuit_op", "circuit_batch_insert_into"]
+
+
+def _hist_base(name, q):
+    if name == "mid":
+        return [cirq.X(q[1])]
+    if name == "outer":
+        return [cirq.X(q[0]), cirq.Z(q[3])]
+    if name == "empty":
+        return []
+    if name == "two_qubit":
+        return [cirq.CZ(q[1], q[2])]
+    if name == "tagged":
+        return [cirq.X(q[1]).with_tags("t")]
+    raise core.HarnessError(name)
+
+
+def _hist_adds(name, base_name, q):
+    """Operations to add (in this order); None when the letter does not fit the base (overlap)."""
+    used = {x for op in _hist_base(base_name, q) for x in op.qubits}
+    table = {
+        "before": [cirq.Y(q[0])],
+        "after": [cirq.Y(q[3])],
+        "between_pair": [cirq.Y(q[2])] if base_name == "outer" else [cirq.Y(q[2])],
+        "pair_around": [cirq.CNOT(q[0], q[3])],
+        "pair_reversed": [cirq.CNOT(q[3], q[0])],
+        "measure_before": [cirq.measure(q[0], key="m")],
+        "two_before_after": [cirq.Y(q[3]), cirq.H(q[0])],
+    }
+    ops = table[name]
+    if any(x in used for op in ops for x in op.qubits):
+        return None
+    return ops
+
+
+def _hist_trigger(name, m):
+    """Materialise one memoised view of moment / circuit m."""
+    if name == "none":
+        return
+    if name == "hash":
+        try:
+            hash(m)
+        except TypeError:
+            m == copy.copy(m)
+    elif name == "eq":
+        assert m == copy.copy(m)
+    elif name == "ne":
+        assert not (m != copy.copy(m))
+    elif name == "str":
+        str(m)
+    elif name == "approx_eq":
+        assert cirq.approx_eq(m, copy.copy(m))
+    elif name == "sorted_private":
+        for mm in ([m] if isinstance(m, cirq.Moment) else list(m)):
+            mm._sorted_operations_()
+    elif name == "eq_unequal":
+        other = cirq.Moment(cirq.T(cirq.LineQubit(77)))
+        assert not (m == (other if isinstance(m, cirq.Moment) else cirq.Circuit(other)))
+    else:
+        raise core.HarnessError(name)
+
+
+def run_history(case):
+    qk, bi, ai, ti, mi = case
+    q = _hist_qubits(qk)
+    base_name, add_name, trig, method = HIST_BASES[bi], HIST_ADDS[ai], HIST_TRIGGERS[ti], HIST_METHODS[mi]
+    base_ops = _hist_base(base_name, q)
+    adds = _hist_adds(add_name, base_name, q)
+    if adds is None:
+        return Res(skipped=True, nontrivial=False)
+    all_ops = base_ops + adds
+    direct_moment = cirq.Moment(all_ops)
+    desc = (f"qubits={[str(x) for x in q]} base={base_name} {base_ops} add={add_name} {adds} memoised view taken before the "
+            f"edit={trig} edit={method}")
+    if method in ("with_operation", "with_operations", "add", "with_operation_chain"):
+        m = cirq.Moment(base_ops)
+        _hist_trigger(trig, m)
+        if method == "with_operation":
+            for op in adds:
+                m = m.with_operation(op)
+        elif method == "with_operations":
+            m = m.with_operations(*adds)
+        elif method == "add":
+            m = m + adds
+        else:
+            for op in adds:
+                m = m.with_operation(op)
+                _hist_trigger(trig, m)
+        hist, direct = m, direct_moment
+    else:
+        c = cirq.Circuit(cirq.Moment(base_ops)) if base_ops else cirq.Circuit(cirq.Moment())
+        _hist_trigger(trig, c)
+        if method == "circuit_insert_inline":
+            c.insert(1, adds, strategy=cirq.InsertStrategy.INLINE)
+        elif method == "circuit_batch_insert_into":
+            c.batch_insert_into([(0, op) for op in adds])
+        else:
+            c.append(adds, strategy=cirq.InsertStrategy.EARLIEST)
+        direct_c = cirq.Circuit(direct_moment)
+        if len(c) != 1:
+            return bad(f"the added operations did not land in the existing moment: {c!r}\n  {desc}", kind="history_layout")
+        if method in ("circuit_append", "circuit_insert_inline", "circuit_batch_insert_into"):
+            hist, direct = c, direct_c
+        elif method == "circuit_append_then_freeze":
+            hist, direct = c.freeze(), direct_c.freeze()
+        else:
+            hist, direct = cirq.CircuitOperation(c.freeze()), cirq.CircuitOperation(direct_c.freeze())
+    try:
+        e1, e2, ne = hist == direct, direct == hist, hist != direct
+    except Exception as e:
+        return bad(f"comparison raised {type(e).__name__}: {e}\n  {desc}", kind="history_eq", method=method)
+    if not (e1 and e2) or ne:
+        return bad(f"a value grown by edits differs from the same value built directly: hist==direct {e1}, direct==hist {e2}, "
+                   f"hist!=direct {ne}\n  {desc}\n  grown:  {short(hist, 700)}\n  direct: {short(direct, 700)}",
+                   kind="history_eq", method=method)
+    hh, hd = try_hash(hist), try_hash(direct)
+    if hh != hd:
+        return bad(f"equal values with different hashes: hash(grown)={hh}, hash(direct)={hd}\n  {desc}", kind="history_hash",
+                   method=method)
+    if not cirq.approx_eq(hist, direct):
+        return bad(f"grown value is not approx_eq to the directly built one\n  {desc}", kind="history_approx", method=method)
+    msg, _text, cnt = check_instance(hist, "grown value: " + desc)
+    if msg:
+        return bad(msg, kind="history_instance", method=method, what=msg.split("\n")[0][:60])
+    return good(nontrivial=trig != "none" and len(all_ops) >= 2, **cnt)
+
+
+def history_cases():
+    out = []
+    for qk in range(3):
+        for bi in range(len(HIST_BASES)):
+            for ai in range(len(HIST_ADDS)):
+                for ti in range(len(HIST_TRIGGERS)):
+                    for mi in range(len(HIST_METHODS)):
+                        out.append((qk, bi, ai, ti, mi))
+    return out
 
 
 # ---------------------------------------------------------------------------------------------
@@ -1276,7 +1443,7 @@ class RecordingStage(CaseStage):
 
 
 def stages(tier: str, seed: int):
-    global _CUR_POOL
+    global _CUR_POOL, _EQ_POOL
     thorough = tier == "thorough"
     sts = []
     prs = pairs()
@@ -1284,7 +1451,7 @@ def stages(tier: str, seed: int):
     us = units()
     sts.append(RecordingStage("b_corpus_roundtrip", [(s, i) for s, i in us], run_corpus_roundtrip))
     _CUR_POOL = pool(tier, seed)
-    gen1 = [(g, i) for g, items in _CUR_POOL.items() for i in range(len(items))]
+    gen1 = [(g, i) for g, items in _CUR_POOL.items() if not g.startswith("_") for i in range(len(items))]
     sts.append(RecordingStage("b_gen1_handbuilt", gen1, run_gen1, chunk=40))
     single = []
     for u in us:
@@ -1297,12 +1464,16 @@ def stages(tier: str, seed: int):
             cases, _total = unit_pair_cases(u)
             prs2.extend((u[0], u[1], a, b) for a, b in cases)
         sts.append(RecordingStage("b_gen2_pairs", prs2, run_gen2_pair, chunk=100))
-    eqc = [(g, i) for g, items in _CUR_POOL.items() if g != "raw" for i in range(min(len(items), EQ_GROUP_CAP))]
+    _EQ_POOL = {g: items for g, items in _CUR_POOL.items() if g != "raw" and not g.startswith("_")}
+    # equal datetime.timedelta values join the duration group (Duration == timedelta is documented)
+    _EQ_POOL["durations"] = list(_CUR_POOL["durations"]) + list(_CUR_POOL["_timedeltas"])
+    eqc = [(g, i) for g, items in _EQ_POOL.items() for i in range(min(len(items), EQ_GROUP_CAP))]
     sts.append(CaseStage("c_eq_hash_pairs_gen1", eqc, run_eq_hash_gen1, chunk=25))
     sts.append(CaseStage("c_eq_hash_pairs_gen2", [(s, i) for s, i in us], run_eq_hash_gen2, chunk=2))
     nq = len(qid_list())
     qc = [("row", i) for i in range(nq)] + [("transitivity", 0)] + [("sorted", k) for k in range(N_SORT_PERMS)]
     sts.append(CaseStage("d_qid_order", qc, run_qid_order))
     sts.append(CaseStage("f_pickle_cross_process", [(b, h) for b in range(len(XP_BUNDLES)) for h in (0, 1)], run_pickle_cross_process, chunk=1))
+    sts.append(CaseStage("g_value_histories", history_cases(), run_history))
     sts.append(CustomStage("e_class_coverage", exec_class_coverage, replay_class_coverage))
     return sts
